@@ -20,6 +20,7 @@ CUT_PRE = dict(
 
 @contract("modifiers.py", "ReverseComplementer.__call__", props=["C16", "C03", "C20"])
 def reverse_complementer_call(c):
+    c.runtime = {"module": "cmods", "name": "revcomp", "replay_count": 3000}
     c.types(self=RCT, read=Record, info=InfoT)
     c.returns(Record)
     c.modifies = ["self", "info", "read"]
